@@ -3,6 +3,8 @@ import DiffxVerif.Properties.C04
 #print axioms Diffx.C04.C04_reader_stack
 #print axioms Diffx.C04.C04_own_wins
 #print axioms Diffx.C04.C04_writer
+#print axioms Diffx.C04.C04_writer_accepted
+#print axioms Diffx.C04.C04_init_stack
 #print axioms Diffx.C04.C04_sibling_change
 #print axioms Diffx.C04.C04_agree
 #print axioms Diffx.C04.C04_diff_reader
